@@ -68,6 +68,14 @@ Theorem read_linearisation_point :
 Proof. exact read_expectation_ok. Qed.
 Print Assumptions read_linearisation_point.
 
+(* request ids are unique, so the entry of a request in [exps] is determined *)
+Theorem read_ids_unique :
+  forall (g : N -> N) (O : list N) (d0 : N) (l : list op) (c : cfg),
+  run g O d0 l = Some c ->
+  forall id e1 e2, In (id, e1) (exps c) -> In (id, e2) (exps c) -> e1 = e2.
+Proof. exact read_ids_unique_ok. Qed.
+Print Assumptions read_ids_unique.
+
 (* Client writes win: after overwrite(off, data), whatever the download delivers
    later (any chunks, queue turns, completion, reads) the file still holds data
    at [off, off+|data|). *)
